@@ -306,10 +306,11 @@ def run(ctx, replay):
             c2 = json.loads(json.dumps(base))
             for e in c2:
                 e["t"] = 900002
-            k = next(i for i, e in enumerate(c2) if e["e"] == "Refresh")
-            del c2[k]                                           # the start-up run of the refresh loop is missing
+            g = next(i for i, e in enumerate(c2) if e["e"] == "Get" and e["res"]["kind"] == "policy" and e["fetch"])
+            c2 = [e for i, e in enumerate(c2)                   # the publication the policy came from is missing
+                  if not (i < g and e["e"] == "Publish" and e["d"] == c2[g]["d"])]
             events = events + c1 + c2
-            selftest = {900001: "forged policy", 900002: "dropped refresh run"}
+            selftest = {900001: "forged policy", 900002: "dropped publication"}
         # trace validation, batches side by side
         ts = sorted(set(e["t"] for e in events))
         per = 1500
@@ -367,7 +368,7 @@ def run(ctx, replay):
             else:
                 ok += 1
         if selftest:
-            ctx.cov["binding_selftest"] = "forged-policy and dropped-refresh traces rejected"
+            ctx.cov["binding_selftest"] = "forged-policy and dropped-publication traces rejected"
         for b in behs[:2]:
             ctx.cov["samples"].append({"behaviour": b, "trace": by_t.get(b["id"], [])[:12]})
     ctx.cov["traces_validated_against_impl"] = ok
